@@ -1181,6 +1181,20 @@ class OpsMixin(object):
                 body = to_node(elem)
                 return StrV(SSeqRep(var, sv.key(), body) if sv is not None else SRep(var, lo, hi, body))
             return StrV(SJoin(sepn, var, lo, hi, sv, to_node(elem)))
+        if isinstance(seq, SortedV) and len(seq.items) == 1:
+            return self.join(sep, ListV(list(seq.items), "list"), node)
+        if isinstance(seq, SortedV) and len(seq.items) == 2 and all(is_strlike(i) or isinstance(i, Opaque) for i in seq.items):
+            # two texts in sorted order: the first written first when it does not sort after the second
+            a, b = seq.items
+            if a.key() == b.key():
+                return self.join(sep, ListV([a, b], "list"), node)
+            cond = Cond("sorts-not-after", a, b)
+            r = self.assume(cond)
+            fwd = self.join(sep, ListV([a, b], "list"), node)
+            rev = self.join(sep, ListV([b, a], "list"), node)
+            if isinstance(r, bool):
+                return fwd if r else rev
+            return StrV(SAlt(cond, to_node(fwd), to_node(rev)))
         self.err(node, "join over %r" % (seq,))
 
 
